@@ -85,7 +85,8 @@ def gen_deco(rng: Prng) -> list:
         if rng.chance(0.5):
             out.append(["color", rng.choice(COLORS)])
         else:
-            out.append(["comment", rng.choice(["", " Root", " R-1-2", " (1 2 3 4)", " | )", " End of split"])])
+            out.append(["comment", rng.choice(["", " Root", " R-1-2", " (1 2 3 4)", " | )", " End of split", " End of split",
+                                               " 25 µm", " Ástrocyte Ý", " слой А-я", " 束 神经元", " naïve – “quoted”"])])
     return out
 
 
@@ -112,6 +113,11 @@ def gen_body(rng: Prng, depth: int, maxdepth: int, maxpts: int, budget: list, ab
         for _ in range(nalt):
             if rng.chance(0.15):
                 alts.append(None)
+            elif alts and alts[-1] is not None and rng.chance(0.12):
+                # an alternative that repeats its sibling point for point, sub-branches included (two equal twigs)
+                import copy as _copy
+
+                alts.append(_copy.deepcopy(alts[-1]))
             else:
                 alts.append(gen_body(rng, depth + 1, maxdepth, maxpts, budget, above=pts[-1]))
         body["split"] = alts
